@@ -102,7 +102,8 @@ class Reg:
 class Post:
 
     __slots__ = ("pid", "event", "type", "kw", "bare", "has_cb", "parent", "depth", "state", "open",
-                 "cb_calls", "final_kw", "stopped", "optional", "extra", "ctx", "fastpath", "last_ret")
+                 "cb_calls", "final_kw", "stopped", "optional", "extra", "ctx", "fastpath", "last_ret",
+                 "q_alive_at_post", "q_nregs_at_post", "q_delivered", "q_last_prio", "q_order")
 
     def __init__(self, pid, event, ev_type, kw, bare, has_cb, parent, ctx):
         self.pid = pid
@@ -123,6 +124,11 @@ class Post:
         self.ctx = ctx
         self.fastpath = False    # nobody was registered for the event when it was posted (and no callback)
         self.last_ret = None
+        self.q_alive_at_post = None   # queue posts only (see BusModel.post_queue)
+        self.q_nregs_at_post = 0
+        self.q_delivered = set()
+        self.q_last_prio = None
+        self.q_order = []
 
     def __repr__(self):
         return "post#%d(%s%s from %s)" % (self.pid, self.event, "/" + self.type if self.type else "", self.ctx)
@@ -158,6 +164,7 @@ class BusModel:
         self.cb_open = []         # posts with a callback that has not run yet
         self.n_deliveries = 0
         self.live_bare = {}       # event -> the one outstanding post without kwargs (see handler_enter)
+        self.qcb_open = []        # queue posts whose completion callback has not run yet
 
     # ------------------------------------------------------------------ registry
     def in_handler(self):
@@ -327,6 +334,10 @@ class BusModel:
                 self.violation("spurious", "no pending post", "handler %s (registered for %s) called with %r but no "
                                "post without kwargs of that event is outstanding" % (hid, event, kwargs))
                 return None, None
+        if target.type == "queue":
+            self.violation("spurious", "queue post", "handler %s called for the queue event %r without a queue argument"
+                           % (hid, target))
+            return target, None
         if target.event != event:
             self.violation("wrong_event", "handler", "handler %s registered for %s called for %r" % (hid, event, target))
             return target, None
@@ -434,6 +445,106 @@ class BusModel:
         if post.stopped and kwargs.get("ev_result", None) is not False:
             self.violation("callback_kwargs", "boolean result", "callback of stopped boolean %r lacks ev_result=False: %r"
                            % (post, kwargs))
+
+    # ------------------------------------------------------------------ queue events (per-delivery rules only)
+    # "Every event posted ... is delivered ... to each handler that is registered for it ... (and whose condition
+    # holds), in descending priority order, with handler-registered arguments overriding posted ones" also holds
+    # for events posted with post_queue / post_queue_async.  Their handlers may wait, so they run in a task of
+    # their own, interleaved with other events; *when* they run and how waits are honoured is property C02.
+    # Here only what C01 states for every event is judged, per delivery:
+    #   - the callable was registered for that event at some moment between the post and the delivery,
+    #   - exactly-once per registration, priorities never increase (ties free),
+    #   - kwargs = posted kwargs overlaid by the registered kwargs, condition not false on both readings (R4),
+    #   - at completion: every registration that existed at the post, was never removed and whose condition holds
+    #     on both readings has been called; the completion callback runs exactly once, with the posted kwargs.
+    def post_queue(self, event, kw, ctx):
+        p = Post(len(self.posts), event, "queue", kw, False, True, None, ctx)
+        self.posts.append(p)
+        p.q_alive_at_post = [r for r in self.registry.get(event, [])]
+        p.q_nregs_at_post = len(self.regs)
+        self.qcb_open.append(p)
+        return p
+
+    def qhandler_enter(self, hid, event, kwargs):
+        """The SUT invoked callable `hid` (registered for `event`) with a `queue` argument and `kwargs`."""
+        pid = kwargs.get("pid")
+        if not isinstance(pid, int) or not 0 <= pid < len(self.posts) or self.posts[pid].type != "queue":
+            self.violation("spurious", "unknown queue post", "handler %s called with a queue argument and %r, which is "
+                           "not a pending queue post" % (hid, kwargs))
+            return None, None
+        p = self.posts[pid]
+        if p.event != event:
+            self.violation("wrong_event", "queue handler", "handler %s registered for %s called for %r" % (hid, event, p))
+            return p, None
+        if p.cb_calls:
+            self.violation("late_delivery", "after queue completion", "handler %s called for %r after its completion "
+                           "callback ran" % (hid, p))
+            return p, None
+        cands = [r for r in p.q_alive_at_post if r.hid == hid] + \
+                [r for r in self.regs[p.q_nregs_at_post:] if r.event == event and r.hid == hid]
+        if not cands:
+            self.violation("not_registered", "queue handler", "handler %s called for %r but it was not registered for %s "
+                           "at any time since the post" % (hid, p, event))
+            return p, None
+        fresh = [r for r in cands if r.rid not in p.q_delivered]
+        if not fresh:
+            self.violation("delivered_twice", "queue handler", "handler %s called again for %r (%r); delivered so far: %s"
+                           % (hid, p, kwargs, p.q_order))
+            return p, None
+
+        def merged(r):
+            m = dict(p.kw)
+            m.update(r.kw)        # "handler-registered arguments overriding posted ones"
+            return m
+        match = [r for r in fresh if merged(r) == kwargs]
+        if not match:
+            self.violation("wrong_kwargs", "queue handler", "handler %s called for %r with %r; expected one of %s"
+                           % (hid, p, kwargs, [merged(r) for r in fresh]))
+            return p, None
+        # Registrations of one callable that look the same to an observer (replace_handler creates them: the
+        # replaced one may still be in the task's handler list) cannot be told apart.  Book the delivery on a live
+        # one first (those are the ones the completion rule asks for) and judge condition and priority on the
+        # most favourable candidate, so that the ambiguity can never raise an alarm.
+        match.sort(key=lambda r: (not r.alive, -r.prio, r.rid))
+        reg = match[0]
+        if all(r.cond and not cond_eval(r.cond, p.kw) and not cond_eval(r.cond, merged(r)) for r in match):
+            self.violation("condition", "queue handler", "handler %r called for %r with %r although its condition is false"
+                           % (reg, p, kwargs))
+        legal = [r.prio for r in match if p.q_last_prio is None or r.prio <= p.q_last_prio]
+        if not legal:
+            self.violation("priority_order", "ascending", "%r (priority %s) called after priority %s in %r: %s"
+                           % (reg, min(r.prio for r in match), p.q_last_prio, p, p.q_order))
+            legal = [reg.prio]
+        p.q_delivered.add(reg.rid)
+        p.q_last_prio = max(legal)
+        p.q_order.append("r%d:%s" % (reg.rid, reg.hid))
+        self.n_deliveries += 1
+        return p, reg
+
+    def qcallback_enter(self, p, kwargs):
+        p.cb_calls += 1
+        if p in self.qcb_open:
+            self.qcb_open.remove(p)
+        if p.cb_calls > 1:
+            self.violation("callback_twice", "queue callback", "completion of %r reported %d times" % (p, p.cb_calls))
+            return
+        for r in p.q_alive_at_post:
+            if r.alive and r.rid not in p.q_delivered:
+                m = dict(p.kw)
+                m.update(r.kw)
+                if not r.cond or (cond_eval(r.cond, p.kw) and cond_eval(r.cond, m)):
+                    self.violation("missed", "queue handler", "%r completed but %r, registered since before the post, "
+                                   "never removed and with its condition holding, was not called; delivered: %s"
+                                   % (p, r, p.q_order))
+                    p.q_delivered.add(r.rid)
+        if kwargs != p.kw:
+            self.violation("callback_kwargs", "queue callback", "completion of %r reported %r, expected %r" % (p, kwargs, p.kw))
+
+    def quiesce_queue(self, why="end of run"):
+        for p in list(self.qcb_open):
+            self.violation("callback_missing", "queue callback", "queue event %r never completed (%s); delivered: %s"
+                           % (p, why, p.q_order))
+            self.qcb_open.remove(p)
 
     def quiesce(self, why="quiescence"):
         """The loop is idle: everything posted must have been dispatched and completed."""
